@@ -922,6 +922,75 @@ func (s *Sys) checkConservation(add addFn) {
 			}
 		}
 	}
+	// every token of every chain, towards every destination (known or not): what the endpoint says is locked
+	// equals what the ledger says is in flight, and the endpoint / packet contract really hold those amounts
+	for _, c := range s.w.Order {
+		cc := s.w.Chains[c]
+		for name, tk := range s.chainTokens(c) {
+			var sum int64
+			for _, d := range append(append([]string{}, s.w.Order...), "nochain-77") {
+				if d == c {
+					continue
+				}
+				got := cc.OutTokens(tk, d).Int64()
+				sum += got
+				want := s.expectedLock(c, tk, d)
+				if got != want {
+					add("C03", "locked-tokens-differ-from-ledger", fmt.Sprintf("%s outTokens[%s][%s]=%d, ledger says %d; transfers=%s", short[c], name, shortOr(d), got, want, s.ledgerString()))
+				}
+			}
+			if tk != (common.Address{}) {
+				if held := cc.ERC20Balance(tk, endpointcontract.EndpointContractAddress).Int64(); held != sum {
+					add("C03", "escrow-balance-differs-from-out-tokens", fmt.Sprintf("%s endpoint holds %d of %s, outTokens sum %d", short[c], held, name, sum))
+				}
+				var fees int64
+				for _, t := range s.tr {
+					if t.Src == c && !t.Acked && t.Token == tk {
+						fees += t.Fee
+					}
+				}
+				if held := cc.ERC20Balance(tk, packetcontract.PacketContractAddress).Int64(); held != fees {
+					add("C03", "fee-escrow-differs-from-ledger", fmt.Sprintf("%s packet contract holds %d of %s, fees of un-acked packets %d", short[c], held, name, fees))
+				}
+			}
+		}
+	}
+}
+
+// chainTokens lists the tokens the harness knows on chain c (zero address = native coin).
+func (s *Sys) chainTokens(c string) map[string]common.Address {
+	out := map[string]common.Address{"native": {}}
+	for k, v := range s.tok {
+		if strings.HasPrefix(k, short[c]+":") {
+			out[k] = v
+		}
+	}
+	return out
+}
+
+// expectedLock is the ledger's view of outTokens[tk][d] on chain c.
+func (s *Sys) expectedLock(c string, tk common.Address, d string) int64 {
+	var lock int64
+	homeOf := "" // origin chain of tk when tk is a bound token on c
+	for k, v := range s.tok {
+		if v == tk && strings.HasPrefix(k, short[c]+":bound:") {
+			homeOf = long[strings.Split(k, ":")[2]]
+		}
+	}
+	for _, t := range s.tr {
+		if t.Src == c && t.Dst == d && t.Token == tk && d != homeOf {
+			if !(t.Acked && t.AckCode != 0) {
+				lock += t.Amount
+			}
+		}
+		// a bound token of tk coming home releases the lock
+		if t.Src == d && t.Dst == c && t.Received && t.AckCode == 0 {
+			if b, ok := s.tok[shortOr(d)+":bound:"+short[c]+":"+map[bool]string{true: "native", false: "erc20"}[tk == (common.Address{})]]; ok && t.Token == b && (tk == (common.Address{}) || tk == s.tok[short[c]+":erc20"]) {
+				lock -= t.Amount
+			}
+		}
+	}
+	return lock
 }
 
 func (s *Sys) ledgerString() string {
